@@ -2,7 +2,7 @@
 
     Only the property theorems; each is closed from lemmas of Proofs/C03_*.v and followed by Print Assumptions.
     Models: Model/GitChanges.v (internal/git/changes.go) and Model/GitBranch.v (internal/discovery/git_branch.go),
-    both as of the current tree (after fix commits a826206, 4412e3a, 4dd7734). *)
+    both as of the current tree (after fix commits a826206, 4412e3a, 4dd7734, d9e7954). *)
 From Coq Require Import List String Ascii ZArith NArith Bool Lia Permutation.
 From PintV Require Import Common.Bytes Gen.Tables Model.GitBranch Proofs.C03_match Proofs.C03_state Proofs.C03_sort Proofs.C03_added Proofs.C03_merge.
 From PintV Require Model.GitChanges Proofs.C03_changes Proofs.C03_unquote Proofs.C03_faithful.
@@ -17,39 +17,47 @@ Module PF := Proofs.C03_faithful.
 (** ** 1. Rename tracking: the fold over the log refines the specification-level lineage.
 
     For ALL logs (any length, any statuses, any paths) and all answers of git ([type_at]), include filters and
-    directory tests: looking a path up in the change list built by the scanner loop gives exactly the chain of log
-    entries obtained by following that path backwards through the log ([PC.trace]): origin = the source of the first
-    entry of the chain (or none for a file created on the branch), commits = exactly the commits of the chain, in order,
-    status/destination = those of the last entry.  Guard [fresh_dst]: a rename never lands on a path that still has a
-    live chain.  Before/after bodies are then [cat-file (first commit)^:origin] and [cat-file (last commit):path]
-    by definition of [GC.finalise]. *)
-Theorem C03_changes_track_renames_partial :
+    directory tests -- no guard since fix d9e7954 --: the [k]-th most recent record of the change list whose After.Name
+    is [p] ([k = 0]: what getChangeByPath returns) is exactly the record of the chain of log entries obtained by following
+    the [k]-th most recent file at [p] backwards through the log ([PC.trace]): origin = the source of the first entry of
+    the chain (or none for a file created on the branch), commits = exactly the commits of the chain, in order,
+    status/destination = those of the last entry.  Every record of the list is such an observation, so the whole list is
+    characterised.  Before/after bodies are then [cat-file (first commit)^:origin] and [cat-file (last commit):path] by
+    definition of [GC.finalise]. *)
+Theorem C03_changes_track_renames :
   forall type_at allowed is_dir (log : list GC.entry),
-    PC.fresh_dst allowed is_dir log ->
-    forall p, GC.get_change_by_path (GC.fold_log type_at allowed is_dir log) p =
-              PC.change_of_chain type_at (PC.trace allowed is_dir (rev log) p).
-Proof. intros. apply PC.fold_refines_trace. assumption. Qed.
-Print Assumptions C03_changes_track_renames_partial.
-
-(** Without the guard the statement is false of the faithful model: delete b; rename a -> b; modify b.  getChangeByPath
-    returns the stale deletion record of b (first match), so the rename commit and the origin a are lost.
-    (Replayed on the real `pint ci`: notes/C03.md.) *)
-Theorem C03_changes_track_renames_refuted :
-  exists type_at log p,
-    GC.get_change_by_path (GC.fold_log type_at (fun _ => true) (fun _ => false) log) p <>
-    PC.change_of_chain type_at (PC.trace (fun _ => true) (fun _ => false) (rev log) p) /\
-    ~ PC.fresh_dst (fun _ => true) (fun _ => false) log.
+    (forall p k, PC.nth_by_path (GC.fold_log type_at allowed is_dir log) p k =
+                 PC.change_of_chain type_at (PC.trace allowed is_dir (rev log) p k)) /\
+    (forall p, GC.get_change_by_path (GC.fold_log type_at allowed is_dir log) p =
+               PC.change_of_chain type_at (PC.trace allowed is_dir (rev log) p 0)) /\
+    (forall ch, In ch (GC.fold_log type_at allowed is_dir log) ->
+       exists k, PC.nth_by_path (GC.fold_log type_at allowed is_dir log) (GC.ch_after ch) k = Some ch).
 Proof.
-  exists PC.witness_types, PC.witness_log, "b". split; [exact PC.refinement_refuted | exact PC.witness_not_fresh].
+  intros. split; [|split].
+  - apply PC.fold_refines_trace.
+  - intro p. rewrite PC.get_is_nth0. apply PC.fold_refines_trace.
+  - apply PC.member_is_observed.
 Qed.
-Print Assumptions C03_changes_track_renames_refuted.
+Print Assumptions C03_changes_track_renames.
+
+(** The former counterexample of the guarded theorem (delete b; rename a -> b; modify b -- known finding
+    C03-rename-onto-deleted-path, fixed by d9e7954): the file at b is now the renamed a with both of its commits, and the
+    deletion of the old b is still reported. *)
+Theorem C03_rename_onto_deleted_path_tracked :
+  map (fun c => (GC.ch_status c, GC.ch_before c, GC.ch_after c, GC.ch_commits c))
+      (GC.fold_log PC.witness_types (fun _ => true) (fun _ => false) PC.witness_log) =
+  [(GC.st "D", "b", "b", ["c1"]); (GC.st "M", "a", "b", ["c2"; "c3"])].
+Proof. exact PC.witness_now_tracked. Qed.
+Print Assumptions C03_rename_onto_deleted_path_tracked.
 
 (** Under the named hypothesis [PF.log_faithful] (the log is ordered by commit, each entry relates the snapshots before and
     after its commit as `git log --name-status` documents -- A: absent -> present, D: present -> absent, M/T: present in
-    both, R s d: s present -> absent and d present --, every path whose blob differs between consecutive snapshots is
-    listed, each path at most once per commit), git answering ls-tree / cat-file from those snapshots, and [fresh_dst]:
-    for every surviving change, Body.Before is the content of the origin path AT THE FORK POINT (snap 0), and Body.After is
-    the content of the destination path AT HEAD (snap n) (nothing for a deleted file, which is indeed absent at HEAD). *)
+    both, R s d: s present -> absent, d absent -> present --, every path whose blob differs between consecutive snapshots
+    is listed, each path at most once per commit) and git answering ls-tree / cat-file from those snapshots:
+    for EVERY record of the change list (observation (p, k)), Body.Before is the content of the origin path AT THE FORK
+    POINT (snap 0), which exists there; a record that is not a deletion is the most recent one for its path and its
+    Body.After is the content of the destination path AT HEAD (snap n); a deletion has no Body.After, and its path is
+    absent at HEAD unless another file was later renamed onto it. *)
 Definition enc (o : option N) : N := match o with Some b => b | None => 0%N end.
 
 Theorem C03_changes_bodies_fork_and_head :
@@ -60,26 +68,31 @@ Theorem C03_changes_bodies_fork_and_head :
     (forall e, In e log -> forall p, type_at (GC.parent (GC.le_commit e)) p = GC.Missing <-> snap (PF.idx cidx e - 1) p = None) ->
     (forall e, In e log -> forall p, body_at (GC.parent (GC.le_commit e)) p = enc (snap (PF.idx cidx e - 1) p) /\
                                      body_at (GC.le_commit e) p = enc (snap (PF.idx cidx e) p)) ->
-    PC.fresh_dst (fun _ => true) (fun _ => false) log ->
-    forall p ch, p <> "" ->
-      GC.get_change_by_path (GC.fold_log type_at (fun _ => true) (fun _ => false) log) p = Some ch ->
+    forall p k ch, p <> "" ->
+      PC.nth_by_path (GC.fold_log type_at (fun _ => true) (fun _ => false) log) p k = Some ch ->
       let f := GC.finalise type_at body_at body_lines blame ch in
       (GC.ch_before ch <> "" -> GC.f_body_before f = enc (snap 0 (GC.ch_before ch)) /\ snap 0 (GC.ch_before ch) <> None) /\
-      (GC.ch_status ch <> GC.st "D" -> GC.f_body_after f = enc (snap n p)) /\
-      (GC.ch_status ch = GC.st "D" -> GC.f_body_after f = 0%N /\ snap n p = None).
+      (GC.ch_status ch <> GC.st "D" -> k = 0%nat /\ GC.f_body_after f = enc (snap n p)) /\
+      (GC.ch_status ch = GC.st "D" ->
+         GC.f_body_after f = 0%N /\
+         (snap n p = None \/ exists x, In x log /\ GC.le_dst x = p /\ GC.le_src x <> p)).
 Proof.
-  intros n snap cidx log type_at body_at body_lines blame LF TF BF Hfresh p ch Hp Hget.
-  destruct (PF.change_bodies_faithful n snap cidx log LF type_at TF p ch Hfresh Hget)
+  intros n snap cidx log type_at body_at body_lines blame LF TF BF p k ch Hp Hget.
+  destruct (PF.change_bodies_faithful n snap cidx log LF type_at TF p k ch Hget)
     as (e1 & em & Hin1 & Hinm & Hhd & Hlast & Hafter & Hdst & Hst & Hn & Hb).
   cbv zeta. unfold GC.finalise. cbn [GC.f_body_before GC.f_body_after]. rewrite Hhd, Hlast, Hafter.
   split; [|split].
   - intro Hne. destruct (Hb Hne) as [Hs Hpres]. split; auto.
     assert (E : String.eqb (GC.ch_before ch) "" = false) by (apply String.eqb_neq; exact Hne).
     rewrite E. simpl. rewrite (proj1 (BF e1 Hin1 (GC.ch_before ch))). unfold PF.idx in Hs. unfold PF.idx. rewrite Hs. reflexivity.
-  - intro Hd. assert (E : String.eqb p "" = false) by (apply String.eqb_neq; exact Hp). rewrite E.
-    assert (E2 : Ascii.eqb (GC.ch_status ch) (GC.st "D") = false) by (apply Ascii.eqb_neq; exact Hd). rewrite E2. simpl.
-    rewrite (proj2 (BF em Hinm p)). rewrite Hn. reflexivity.
+  - intro Hd. destruct Hn as [[Hk Hn]|[HD _]].
+    + split; [exact Hk|].
+      assert (E : String.eqb p "" = false) by (apply String.eqb_neq; exact Hp). rewrite E.
+      assert (E2 : Ascii.eqb (GC.ch_status ch) (GC.st "D") = false) by (apply Ascii.eqb_neq; exact Hd). rewrite E2. simpl.
+      rewrite (proj2 (BF em Hinm p)). rewrite Hn. reflexivity.
+    + exfalso. apply Hd. rewrite Hst. exact HD.
   - intro Hd. rewrite Hd. rewrite Ascii.eqb_refl. rewrite andb_false_r. split; [reflexivity|].
+    destruct Hn as [[Hk Hn]|[_ Hx]]; [left|right; exact Hx].
     rewrite Hn. rewrite Hst in Hd.
     destruct (PF.lf_entry n snap cidx log LF em Hinm) as [(Hs & _)|[(Hs & E1 & _ & Hnone)|[([Hs|Hs] & _)|(Hs & _)]]];
       unfold PF.is_st in Hs; rewrite Hs in Hd; try (vm_compute in Hd; discriminate Hd).
@@ -248,7 +261,7 @@ Example C03_nonvacuous :
 Proof. vm_compute. repeat split. Qed.
 
 (** Non-vacuity of the hypotheses of C03_changes_bodies_fork_and_head: a two-commit history (modify a; rename a -> b)
-    satisfies log_faithful and fresh_dst, and the theorem's conclusion is the expected one. *)
+    satisfies log_faithful, and the theorem's conclusion is the expected one. *)
 Definition nv_log : list GC.entry := [PC.mk "c1" "M" "a" "a"; PC.mk "c2" "R" "a" "b"].
 Definition nv_cidx (c : string) : nat := if String.eqb c "c1" then 1 else 2.
 Definition nv_snap (i : nat) (p : string) : option N :=
@@ -272,31 +285,24 @@ Qed.
 
 Example C03_faithful_nonvacuous :
   PF.log_faithful 2 nv_snap nv_cidx nv_log /\
-  PC.fresh_dst (fun _ => true) (fun _ => false) nv_log /\
   option_map (fun c => (GC.ch_before c, GC.ch_after c, GC.ch_commits c))
     (GC.get_change_by_path (GC.fold_log (fun _ _ => GC.File) (fun _ => true) (fun _ => false) nv_log) "b")
   = Some ("a", "b", ["c1"; "c2"]).
 Proof.
-  split; [|split; [|vm_compute; reflexivity]].
-  - constructor.
-    + intros l1 e1 l2 e2 l3 H. apply two_split in H. destruct H as (_ & -> & _ & -> & _). vm_compute. auto.
-    + intros e [<-|[<-|[]]]; vm_compute; auto.
-    + intros e [<-|[<-|[]]]; unfold PF.faithful_entry.
-      * right. right. left. vm_compute. split; [left; reflexivity|]. repeat split; intro H; discriminate H.
-      * right. right. right. vm_compute. repeat split; try (intro H; discriminate H).
-    + intros i p Hi Hno. assert (i = 1 \/ i = 2) as [Hi1 | Hi2] by lia; [rewrite Hi1 in * | rewrite Hi2 in *].
-      * simpl. destruct (String.eqb p "a") eqn:E; auto. apply String.eqb_eq in E. subst.
-        exfalso. apply (Hno (PC.mk "c1" "M" "a" "a")); [left; auto | reflexivity | left; reflexivity].
-      * simpl. destruct (String.eqb p "b") eqn:Eb.
-        -- apply String.eqb_eq in Eb. subst. exfalso.
-           apply (Hno (PC.mk "c2" "R" "a" "b")); [right; left; auto | reflexivity | right; reflexivity].
-        -- destruct (String.eqb p "a") eqn:Ea; auto. apply String.eqb_eq in Ea. subst. exfalso.
-           apply (Hno (PC.mk "c2" "R" "a" "b")); [right; left; auto | reflexivity | left; reflexivity].
-    + intros l1 e1 l2 e2 l3 H. apply two_split in H. destruct H as (_ & -> & _ & -> & _). vm_compute. intro H. discriminate H.
-  - intros prefix e rest H Hl Hne.
-    destruct prefix as [|x prefix]; simpl in H.
-    + inversion H; subst. exfalso. apply Hne. reflexivity.
-    + inversion H; subst. destruct prefix as [|y prefix]; simpl in *.
-      * inversion H2; subst. vm_compute. reflexivity.
-      * inversion H2; subst. destruct prefix; discriminate.
+  split; [|vm_compute; reflexivity].
+  constructor.
+  - intros l1 e1 l2 e2 l3 H. apply two_split in H. destruct H as (_ & -> & _ & -> & _). vm_compute. auto.
+  - intros e [<-|[<-|[]]]; vm_compute; auto.
+  - intros e [<-|[<-|[]]]; unfold PF.faithful_entry.
+    + right. right. left. vm_compute. split; [left; reflexivity|]. repeat split; intro H; discriminate H.
+    + right. right. right. vm_compute. repeat split; try (intro H; discriminate H).
+  - intros i p Hi Hno. assert (i = 1 \/ i = 2) as [Hi1 | Hi2] by lia; [rewrite Hi1 in * | rewrite Hi2 in *].
+    + simpl. destruct (String.eqb p "a") eqn:E; auto. apply String.eqb_eq in E. subst.
+      exfalso. apply (Hno (PC.mk "c1" "M" "a" "a")); [left; auto | reflexivity | left; reflexivity].
+    + simpl. destruct (String.eqb p "b") eqn:Eb.
+      * apply String.eqb_eq in Eb. subst. exfalso.
+        apply (Hno (PC.mk "c2" "R" "a" "b")); [right; left; auto | reflexivity | right; reflexivity].
+      * destruct (String.eqb p "a") eqn:Ea; auto. apply String.eqb_eq in Ea. subst. exfalso.
+        apply (Hno (PC.mk "c2" "R" "a" "b")); [right; left; auto | reflexivity | left; reflexivity].
+  - intros l1 e1 l2 e2 l3 H. apply two_split in H. destruct H as (_ & -> & _ & -> & _). vm_compute. intro H. discriminate H.
 Qed.
